@@ -20,7 +20,7 @@ def CommitEv (h : List Sys) (nE l t c : Nat) (gE : LLog) (pE : Nat) : Prop :=
     gE = stb.raft.raftLog.abs ∧ pE = stb.raft.raftLog.persisted
 
 /-- the term of every `MsgAppend` of the transport is a leader's term: not `0` -/
-theorem append_term_ne_zero (H : Hyp2 cfg c0 h) {n : Nat} {s : Sys} (hn : h[n]? = some s)
+theorem append_term_ne_zero (H : Hyp2w cfg c0 h) {n : Nat} {s : Sys} (hn : h[n]? = some s)
     {x : Message} (hx : x ∈ s.net) (hty : x.msgType = .msgAppend) : x.term ≠ 0 := by
   obtain ⟨s0, _, hall⟩ := H.inv_at
   obtain ⟨i, m, _, s1, st, h1, h2, h3, h4, _⟩ := (append_prov H n s hn).2 x hx hty
@@ -38,7 +38,7 @@ def AckN (s : Sys) : Prop :=
 
 /-- what a `call` / `deliver` step queues as accepting append response with a positive index: it
 carries the node's id and its (non-zero) term after the step -/
-theorem fresh_ack (H : Hyp2 cfg c0 h) {n : Nat} {a : Sys} {i : Nat} {st st' : NState}
+theorem fresh_ack (H : Hyp2w cfg c0 h) {n : Nat} {a : Sys} {i : Nat} {st st' : NState}
     {rnd : Option Nat} {op : NodeOp} {res : OpRes}
     (ha : h[n]? = some a) (hi : a.node i = some st)
     (hop : appOp op = true ∨ ∃ m, op = .step m ∧ m ∈ a.net ∧ m.to = i)
@@ -79,7 +79,7 @@ theorem fresh_ack (H : Hyp2 cfg c0 h) {n : Nat} {a : Sys} {i : Nat} {st st' : NS
           · rw [c.term, ← e]; exact hmt
           · exact absurd e hmt
 
-theorem ack_inv (H : Hyp2 cfg c0 h) : ∀ (n : Nat) (s : Sys), h[n]? = some s → AckQ s ∧ AckN s := by
+theorem ack_inv (H : Hyp2w cfg c0 h) : ∀ (n : Nat) (s : Sys), h[n]? = some s → AckQ s ∧ AckN s := by
   refine hist_induct h _ ?_ ?_
   · intro s h0
     have hinit := hist_init H.hist s h0
